@@ -14,6 +14,7 @@ func init() { Registry["C08"] = c08 }
 
 func c08(r *Report) {
 	p := r.P
+	defer c08Audit4(r)
 	const dag = "network/dag"
 	r.Explanation = "Static decision of the structural conditions that keep DAG digests, head and counters tied to the stored set: (1) same transaction: in the admission write closure every successful path after graph.add runs updateState (in tail position), updateState succeeds only through both tree writes, and (*dag).add succeeds only through the highest-clock, head and counter updates — all on the closure's write transaction; (2) rollback: the admission Write carries an OnRollback callback that reloads the state, and loadState overwrites (Store) the in-memory highest clock with the stored value and re-reads both trees; start-up reloads too; (3) single writer: the in-memory trees are mutated only by treeStore.write/read and the repair procedure, the tree buckets are written only by writeWithoutLock; (4) repair: the page is recomputed from the stored transactions inside the same write transaction that replaces the leaf, the leaf is replaced only when the recomputed digest differs, and the replaced page is the page that was recomputed."
 	r.NotDecided = []string{"equality of XOR/IBLT values with a fold over the stored set (numerical)", "page arithmetic", "storage engine atomicity"}
